@@ -3,11 +3,11 @@ package main
 // engine.go — program loading, per-function verification driver, SMT script assembly.
 
 import (
-	"runtime/debug"
 	"fmt"
 	"go/token"
 	"go/types"
 	"os"
+	"runtime/debug"
 	"sort"
 	"strings"
 	"sync"
